@@ -134,6 +134,57 @@ func runC04(c *engine.Ctx) {
 	}
 	c.Floor(uses, 1)
 
+	c.Rule("R2d", "the verifier fields Service.authVerifier and Control.authVerifier are written only by their constructors, and the always-pass verifier never flows into a field or global (it stays a per-login local)")
+	nst := 0
+	for _, spec := range [][3]string{{"server", "Service", "NewService"}, {"server", "Control", "NewControl"}} {
+		vf := p.Field(spec[0], spec[1], "authVerifier")
+		if vf == nil {
+			c.Missing(spec[0]+"."+spec[1]+".authVerifier", "field not found")
+			continue
+		}
+		ctor := p.FuncObj(spec[0], spec[2])
+		for _, f := range p.RepoFuncs() {
+			engine.ForEachInstr(f, func(in ssa.Instruction) {
+				st, ok := in.(*ssa.Store)
+				if !ok {
+					return
+				}
+				if fv, _ := engine.LoadedField(st.Addr); fv != vf {
+					return
+				}
+				nst++
+				root := f
+				for root.Parent() != nil {
+					root = root.Parent()
+				}
+				c.Check(root.Object() == ctor, spec[1]+".authVerifier<-"+p.FuncName(f), in.Pos(), 1, nil,
+					"%s.authVerifier is assigned only in %s (a later assignment would change the verifier for every subsequent peer)", spec[1], spec[2])
+			})
+		}
+	}
+	if always != nil {
+		for _, f := range p.RepoFuncs() {
+			engine.ForEachInstr(f, func(in ssa.Instruction) {
+				st, ok := in.(*ssa.Store)
+				if !ok {
+					return
+				}
+				if _, isLocal := st.Addr.(*ssa.Alloc); isLocal {
+					return
+				}
+				src := engine.Provenance(st.Val, engine.ProvOpts{NoArgs: true})
+				for g := range src.Globals {
+					if g.Object() == always {
+						nst++
+						c.Violate("always-pass-stored@"+p.FuncName(f), in.Pos(), []string{"stored into " + engine.Describe(st.Addr)},
+							"the always-pass verifier is stored into shared state: after one exempted login every later peer is exempted")
+					}
+				}
+			})
+		}
+	}
+	c.Floor(nst, 2)
+
 	c.Rule("R2b", "every call of HandleListener/handleConnection passes internal=false, except the in-process ssh-tunnel listener; handleConnection forwards its own flag unchanged")
 	handleListener := method(c, "server", "Service", "HandleListener")
 	handleConn := method(c, "server", "Service", "handleConnection")
